@@ -176,7 +176,12 @@ def directive_lines(texts, toks):
     (list of directive token tuples for include/import/using lines, remaining token list)"""
     out_lines, rest = [], []
     cur = None
-    kinds = [k for k, _ in toks if k not in ("cmtl", "cmtb")]
+    kinds = []
+    for k, cps in toks:
+        if k in ("cmtl", "cmtb"):
+            continue
+        t = "".join(chr(c) for c in cps)
+        kinds += [k] * (len(t) if (k == "punct" and t in (">>", ">>>")) else 1)      # as tok_texts() splits `>>`
     i, n = 0, len(texts)
     while i < n:
         t = texts[i]
